@@ -25,7 +25,7 @@ use tokio::task::JoinHandle;
 use tokio_util::codec::FramedWrite;
 use uuid::Uuid;
 
-use crate::agentdef::{HAgent, HLifecycle, Shared, CMD, DEMAND, DEMAND_MAP, MAP_LANES, VAL_LANES};
+use crate::agentdef::{external_name, HAgent, HLifecycle, Shared, CMD, DEMAND, DEMAND_MAP, MAP_LANES, VAL_LANES};
 use crate::program::{Ev, Input, Lane, Program, Step, PARAM_ZONE};
 
 pub const NODE: &str = "/node";
@@ -90,24 +90,25 @@ async fn settle() {
     tokio::time::sleep(Duration::from_millis(crate::reference::SETTLE_MS)).await;
 }
 
+/// The *external* name of a lane (the harness plays a remote).
 pub fn lane_name(lane: Lane) -> &'static str {
-    match lane {
+    external_name(match lane {
         Lane::Val(i) => VAL_LANES[i as usize],
         Lane::Map(i) => MAP_LANES[i as usize],
         Lane::Dem => DEMAND,
         Lane::DemMap => DEMAND_MAP,
         _ => CMD,
-    }
+    })
 }
 
 pub fn body_of(input: &Input) -> (&'static str, String) {
     match *input {
         Input::Sync(lane) => (lane_name(lane), String::new()),
-        Input::Cmd { prog, arg } => (CMD, format!("@run{{prog:{prog},arg:{arg}}}")),
-        Input::SetV { lane, v } => (VAL_LANES[lane as usize], format!("{v}")),
-        Input::Upd { lane, k, v } => (MAP_LANES[lane as usize], format!("@update(key:{k}) {v}")),
-        Input::Rem { lane, k } => (MAP_LANES[lane as usize], format!("@remove(key:{k})")),
-        Input::Clr { lane } => (MAP_LANES[lane as usize], "@clear".to_string()),
+        Input::Cmd { prog, arg } => (lane_name(Lane::Cmd), format!("@run{{prog:{prog},arg:{arg}}}")),
+        Input::SetV { lane, v } => (lane_name(Lane::Val(lane)), format!("{v}")),
+        Input::Upd { lane, k, v } => (lane_name(Lane::Map(lane)), format!("@update(key:{k}) {v}")),
+        Input::Rem { lane, k } => (lane_name(Lane::Map(lane)), format!("@remove(key:{k})")),
+        Input::Clr { lane } => (lane_name(Lane::Map(lane)), "@clear".to_string()),
     }
 }
 
